@@ -50,6 +50,7 @@ func RunLatch(seed int64, dur time.Duration) (out []Ev) {
 	P.CreateColumn("b", column.ForInt32())
 	P.CreateColumn("s", column.ForString())
 	P.CreateIndex("pos", "a", func(r column.Reader) bool { return r.Int() >= 0 })
+	P.CreateSortIndex("byS", "s")
 	// rows in two blocks: the last rows of block 0 and the first of block 1
 	P.Query(func(txn *column.Txn) error {
 		for i := 0; i < 16384-8; i++ {
@@ -99,7 +100,7 @@ func RunLatch(seed int64, dur time.Duration) (out []Ev) {
 	}
 	type seenT map[uint32]map[triple]bool
 	var smu sync.Mutex
-	all := map[string]seenT{"queryat": {}, "range": {}, "filtered": {}}
+	all := map[string]seenT{"queryat": {}, "range": {}, "filtered": {}, "ascend": {}}
 	var reads int64
 	parse := func(s string) int {
 		if len(s) < 2 || s[0] != 'v' {
@@ -111,9 +112,9 @@ func RunLatch(seed int64, dur time.Duration) (out []Ev) {
 		}
 		return n
 	}
-	for g := 0; g < 9; g++ {
+	for g := 0; g < 11; g++ {
 		wg.Add(1)
-		how := []string{"queryat", "range", "filtered"}[g%3]
+		how := []string{"queryat", "range", "filtered", "queryat", "range", "filtered", "queryat", "range", "filtered", "ascend", "ascend"}[g]
 		lr := rand.New(rand.NewSource(seed*17 + int64(g)))
 		go func() {
 			defer wg.Done()
@@ -134,6 +135,19 @@ func RunLatch(seed int64, dur time.Duration) (out []Ev) {
 						b, _ := r.Int32("b")
 						s, _ := r.String("s")
 						note(o, a, b, s)
+						return nil
+					})
+				case "ascend":
+					// iteration in sorted order: the callback is positioned on a row like Range's
+					P.Query(func(txn *column.Txn) error {
+						txn.With("a")
+						ca, cb, cs := txn.Int64("a"), txn.Int32("b"), txn.String("s")
+						txn.Ascend("byS", func(idx uint32) {
+							a, _ := ca.Get()
+							b, _ := cb.Get()
+							s, _ := cs.Get()
+							note(idx, a, b, s)
+						})
 						return nil
 					})
 				default:
@@ -180,7 +194,7 @@ func RunLatch(seed int64, dur time.Duration) (out []Ev) {
 		w.T.Log(Ev{"e": "lmax", "o": int(o), "k": int(atomic.LoadInt64(&ver[i]))})
 	}
 	total := 0
-	for _, how := range []string{"queryat", "range", "filtered"} {
+	for _, how := range []string{"queryat", "range", "filtered", "ascend"} {
 		var os []int
 		for o := range all[how] {
 			os = append(os, int(o))
